@@ -48,6 +48,11 @@ async fn vf_group_rendezvous() {
             }
             script(&wp.join(&t).join("monorail/cmd"), "meet.sh", &format!(
                 "{pre}touch '{m}/{t}'\nfor k in $(seq 1 160); do c=$(ls '{m}' | wc -l); if [ \"$c\" -ge {n} ]; then exit 0; fi; sleep 0.05; done\nexit 1", m = marks.display(), t = t, n = n, pre = pre));
+            // ... and every third member's command file is executable for its owner only (0700 / 0744 / 0750): it is a member like any other
+            if n == 12 && i % 3 == 2 {
+                let p = wp.join(&t).join("monorail/cmd/meet.sh");
+                let mut perm = std::fs::metadata(&p).unwrap().permissions(); perm.set_mode([0o700, 0o744, 0o750][(i / 3) % 3]); std::fs::set_permissions(&p, perm).unwrap();
+            }
             targets.push(format!("{{\"path\":\"{}\"}}", t));
         }
         let cfg: core::Config = serde_json::from_str(&format!("{{\"targets\":[{}]}}", targets.join(","))).unwrap();
